@@ -3,6 +3,7 @@ import re
 
 from driver.common import Case, dd_chunks
 from driver import fmtgen as G
+from driver import utf8gen as U
 
 ID = "C03"
 TIMEOUT = 3.0           # per-op watchdog; inputs are < 1 kB, a parse takes microseconds
@@ -10,8 +11,8 @@ UNMODELLED = "unmodelled"
 
 
 def matches(c):
-    """model = implementation, or the oracle's explicit `unmodelled` marker (non-ASCII input, machine-dependent
-    allocation band): no correspondence obligation for that case"""
+    """model = implementation, or the oracle's explicit `unmodelled` marker (machine-dependent allocation band; Clustal /
+    Stockholm / Nexus input holding the runes U+0131 / U+017F): no correspondence obligation for that case"""
     return c.model == UNMODELLED or c.model == c.impl
 
 
@@ -30,8 +31,10 @@ LEVEL_TEXT = ("Lean theorems about total executable models of all seven parsers 
               "by the compiled oracle on the implementation's outcome for every input.")
 LEVEL_NOTE = ("Trusted: Lean kernel; harness + python watchdog (hang = no answer within 3 s on inputs < 1 kB); the naive "
               "header scanners of Spec/Fmt.lean; tools/extract/fmtfacts.go (syntactic recognition of the guards); "
-              "bufio/UTF-8 decoding (models are ASCII-only: non-ASCII inputs carry no correspondence obligation but are "
-              "still judged by the predicate). Agreement of the Nexus DIMENSIONS reading with the naive scanner is checked on the "
+              "the rune reader model Model/Fmt/Utf8.lean (ReadRune / WriteRune as Go's unicode/utf8 does it: compared with "
+              "the implementation on every generated input with bytes >= 128; the models are defined on ALL byte strings, "
+              "except that the Clustal / Stockholm / Nexus models make no claim for an input holding U+0131 or U+017F, which "
+              "strings.ToUpper maps to I / S in the keyword test: such inputs are judged by the predicate only). Agreement of the Nexus DIMENSIONS reading with the naive scanner is checked on the "
               "implementation only: see evidence 'partial'.")
 TECHNIQUE = "Lean 4 proof (total parser models, container invariant by induction over token lists) + exhaustive-truncation / mutation differential run"
 LEAN_MODULES = ["Gv.Props.C03"]
@@ -51,8 +54,14 @@ REQUIRED_THEOREMS = ["Gv.Props.C03." + n for n in [
     "phylip_multi_counts", "phylip_outcome_full", "phylip_multi_outcome",
     # Nexus: counts of the DIMENSIONS commands / TAXA block as the parser read them (Proofs/NexusHeader.lean)
     "nexus_counts_as_read", "nexus_header_consistent_partial", "nexus_endblock_ends_block", "nexus_counterexample_nested_begin",
-    "nexus_counterexample_empty_command", "nexus_counterexample_second_data_block"]]
-TRUSTED = ["bufio.Reader / UTF-8 rune decoding (inputs with bytes >= 128 are judged by the predicate only)",
+    "nexus_counterexample_empty_command", "nexus_counterexample_second_data_block",
+    # the raw input, ALL byte strings (rune reader model Model/Fmt/Utf8.lean, Proofs/Utf8Norm.lean)
+    "fasta_parseBytes_ascii", "fasta_outcome_bytes_partial", "fasta_outcome_bytes",
+    "phylip_parseBytes_ascii", "phylip_outcome_bytes", "phylip_multi_outcome_bytes", "partition_outcome_bytes",
+    "clustal_outcome_bytes", "stockholm_outcome_bytes", "nexus_outcome_bytes", "parseBytes_ascii_claim"]]
+TRUSTED = ["bufio.Reader buffering (ReadRune = utf8.DecodeRune on the remaining input; the decoding itself is modelled in "
+           "Model/Fmt/Utf8.lean and compared on every input with bytes >= 128); strings.ToUpper on U+0131 / U+017F (Clustal, "
+           "Stockholm, Nexus keyword tests: no model claim for inputs holding these runes)",
            "python watchdog: hang = no answer within TIMEOUT",
            "tools/extract/fmtfacts.go: recognises the proposed guards syntactically; the models are parametric in these facts"]
 ASSUMPTIONS = ["a NUL byte is goalign's in-band end-of-input marker (lexers return rune 0 for EOF): the Phylip "
@@ -66,11 +75,19 @@ RULE = ("valid files of each format (python writers + hand-written variants: int
         "splices across formats, header-count perturbations, lone CR, CRLF, NUL, unterminated '[', markup on the last "
         "line, blocks with extra / missing rows; every parser option on the option-sensitive files; auto-detecting entry "
         "point, multi-Phylip streams and their truncations; partition strings from a grammar + overflow values; "
+        "bytes >= 128 (driver/utf8gen.py): valid 2/3/4-byte UTF-8, truncated sequences, over-long forms, surrogates, values "
+        "above U+10FFFF, lone continuation bytes, FE/FF, Unicode blanks, U+0131/U+017F - in names, residues (columns of "
+        "equal WRITTEN length, so that many cases succeed), header lines with the written / raw / rune length, strict "
+        "Phylip name fields of 10 runes, keywords, at the end of the input, inserted at / substituted for token boundaries of "
+        "every seed file, in multi-Phylip streams, partition strings and through the auto-detecting entry point; "
         "non-trivial = differs from every seed file and the first changed byte lies beyond the header")
 
 PARTIAL = [
     "all seven parsers: the full C03 outcome statement (explicit error / exit with message / well-formed result; never a "
-    "panic, never a hang) is PROVED for the repaired code over all ASCII byte strings and all options: fasta_outcome_fixed, "
+    "panic, never a hang) is PROVED for the repaired code over ALL byte strings (of what the lexer holds after ReadRune / "
+    "WriteRune: X.parse; and of the raw input, bytes >= 128 included: X.parseBytes = X.parse . Utf8.norm, theorems "
+    "fasta_outcome_bytes, phylip_outcome_bytes, phylip_multi_outcome_bytes, partition_outcome_bytes, clustal_outcome_bytes, "
+    "stockholm_outcome_bytes, nexus_outcome_bytes) and all options: fasta_outcome_fixed, "
     "phylip_outcome_fixed (strict and relaxed), nexus_outcome_fixed, clustal_outcome_fixed, stockholm_outcome_fixed, "
     "partition_outcome (+ addRange_in_bounds); the unrepaired variants are covered by *_partial theorems and "
     "kernel-evaluated counter-examples",
@@ -97,8 +114,16 @@ PARTIAL = [
     "(phylip_multi_outcome: every Parse call that hands on an alignment consumes input), every alignment it hands on being "
     "well formed and consistent with its own header line (phylip_multi_wellformed, phylip_multi_counts)",
     "ParseAlignmentAuto: modelled as a first-byte dispatch over the single-parser models (C02.autodetect_selects_written_format)",
-    "inputs with bytes >= 128 (UTF-8 decoding, incl. the repaired rune-index panic of strict Phylip names) and Phylip "
-    "allocations of 2^27..2^44 entries (unrepaired code only): predicate only, no model",
+    "bytes >= 128: the lexers read runes; Model/Fmt/Utf8.lean models ReadRune (utf8.DecodeRune: ill-formed byte = U+FFFD of "
+    "width 1) and WriteRune, every format model is defined on the raw input through it (a byte outside a well-formed "
+    "sequence reaches names and residues as EF BF BD: lengths are lengths of the WRITTEN bytes; strict Phylip names are ten "
+    "runes). That the byte lexers on Utf8.norm equal the rune lexers rests on the facts of Proofs/Utf8Norm.lean (rune < 0x80 "
+    "iff ASCII byte, written back as itself; rune >= 0x80 written with bytes >= 0x80 only) and on the correspondence run, not "
+    "on a proved lexer equivalence. The header-consistency clause of phylip_outcome_bytes reads the header of Utf8.norm bs "
+    "(the oracle predicate reads the raw bytes; equality of the two readings is not proved). REMAINING restriction: Clustal, "
+    "Stockholm and Nexus inputs that hold U+0131 or U+017F (strings.ToUpper maps them to I / S, so `clu\u017ftal` is the "
+    "keyword): the models answer `no claim` (parseBytes = none), predicate only. Phylip allocations of 2^27..2^44 entries "
+    "(unrepaired code only): predicate only, no model",
 ]
 
 BYTE_CLASSES = [b"\n", b"\r", b" ", b"\t", b"\x00", b">", b"#", b"[", b"]", b";", b"=", b",", b"-", b"/", b":",
@@ -606,6 +631,8 @@ def gen(rng, tier):
         for c in range(0, len(data), step):
             yield Case("parsemulti", ["0,%d,2" % rng.randint(0, 2), G.hx(data[:c])], True, "multi:truncate")
     yield from partition_cases(rng, tier)
+    # bytes >= 128: the lexers read runes (Model/Fmt/Utf8.lean); strata of driver/utf8gen.py
+    yield from U.cases(rng, tier, sd, popts_all, popts_default, token_boundaries)
 
 
 # ---- shrinking: bytes ----------------------------------------------------------------------------------
